@@ -24,7 +24,11 @@ func runC08(e *Engine, r *Report) {
 		}
 	}
 	// ---- compaction only after commit + log reader registration
-	compactLog := r.need("(*dragonboat.node).compactLog")
+	compactLog := r.helper("(*dragonboat.node).compactLog")
+	if compactLog == nil {
+		// inlined: the role "request compaction" is the store of the compaction target
+		compactLog = r.need("(*dragonboat.snapshotState).setCompactLogTo")
+	}
 	commit := r.need("(*dragonboat.snapshotter).Commit")
 	createSS := r.need("(*internal/logdb.LogReader).CreateSnapshot")
 	doSave := r.need("(*dragonboat.node).doSave")
@@ -101,18 +105,36 @@ func runC08(e *Engine, r *Report) {
 				continue
 			}
 			n++
-			r.check(s.Parent() == removeLog, "WMC-remove-entries", "ILogDB.RemoveEntriesTo called in "+fname(s.Parent()), e.ipos(s), "entries are removed only by removeLog", "log entries are removed from the store outside removeLog")
+			okRole := e.onlyCalledFrom(s.Parent(), map[string]bool{fname(removeLog): true}, map[string]bool{}, 2)
+			r.check(okRole, "WMC-remove-entries", "ILogDB.RemoveEntriesTo called in "+fname(s.Parent()), e.ipos(s), "entries are removed only by removeLog (or a helper only it calls)", "log entries are removed from the store outside removeLog")
 			r.guard("WMC-remove-entries", "RemoveEntriesTo in "+fname(s.Parent()), s.(ssa.Instruction), reqBool("hasCompactLogTo() is true", e.callV(hasCT), true))
 			// argument is the requested compact-to index
 			getCT := e.Func("(*dragonboat.snapshotState).getCompactLogTo")
 			args := s.Common().Args
-			r.check(getCT != nil && e.callV(getCT)(args[len(args)-1]), "WMC-remove-entries", "RemoveEntriesTo(compactTo) in "+fname(s.Parent()), e.ipos(s), "removes up to the requested index", "RemoveEntriesTo is not given the compact-log-to index")
+			okArg := getCT != nil && e.callV(getCT)(args[len(args)-1])
+			if !okArg && getCT != nil {
+				// through a helper: the helper's parameter, bound at each call site to the compact-to index
+				if p, isP := stripConv(args[len(args)-1]).(*ssa.Parameter); isP && p.Parent() == s.Parent() {
+					okArg = true
+					for pi, q := range s.Parent().Params {
+						if q != p {
+							continue
+						}
+						for _, cs := range e.CallerSites(s.Parent()) {
+							if pi >= len(cs.Common().Args) || !e.dependsOn(cs.Common().Args[pi], e.callV(getCT), 0) {
+								okArg = false
+							}
+						}
+					}
+				}
+			}
+			r.check(okArg, "WMC-remove-entries", "RemoveEntriesTo(compactTo) in "+fname(s.Parent()), e.ipos(s), "removes up to the requested index", "RemoveEntriesTo is not given the compact-log-to index")
 		}
 		r.floor("WMC-remove-entries", n, 1)
 		// setCompactLogTo only via compactLog
 		if sct := e.Func("(*dragonboat.snapshotState).setCompactLogTo"); sct != nil && compactLog != nil {
 			for _, s := range e.CallerSites(sct) {
-				r.check(s.Parent() == compactLog, "WMC-remove-entries", "setCompactLogTo called in "+fname(s.Parent()), e.ipos(s), "compaction is requested only through compactLog", "a compaction request is created outside compactLog")
+				r.check(s.Parent() == compactLog || compactLog == sct, "WMC-remove-entries", "setCompactLogTo called in "+fname(s.Parent()), e.ipos(s), "compaction is requested only through compactLog", "a compaction request is created outside compactLog")
 			}
 		}
 	}
